@@ -215,23 +215,6 @@ def propFromDecl (env : Env) (name value prio : Cps) : Except Err Pty := do
   else
     pure Pty.empty
 
-/-! ## serialisation of a property (`serialize.py:967-1017`, default preferences) -/
-
-def partText : Part → Cps
-  | .str v => v
-  | .comment v => v
-
-def prioPartText (p : Pty) : Part → Cps
-  | .str v => if v == p.litPrio then p.prio else v      -- defaultPropertyPriority (:1009-1015)
-  | .comment v => v
-
-/-- `do_Property` -/
-def propText (p : Pty) : Cps :=
-  if p.nameSeq != [] && p.wf then
-    (p.nameSeq.map partText).flatten ++ [58, 32] ++ p.val.css ++
-      (if p.prioSeq != [] then 32 :: (p.prioSeq.map (prioPartText p)).flatten else [])
-  else []
-
 /-! ## the declaration block -/
 
 inductive Item
@@ -452,25 +435,8 @@ def setCssText (env : Env) (d : Decl) (items : List SrcItem) : Res Unit :=
     | .error e => ⟨d, .error e⟩
     | .ok newseq => ⟨{ d with seq := newseq }, .ok ()⟩
 
-/-! ## serialisation of the block (`serialize.py:898-955`, default preferences, `separator=None`) -/
-
-def itemOut (n : Nat) (i : Nat) : Item → List Cps
-  | .comment t => [t, [10]]
-  | .prop p =>
-    if propText p != [] then
-      [propText p] ++ (if i == n - 1 then [] else [[59]]) ++ [[10]]
-    else []
-  | .other t => [t, [10]]
-
-def outPieces (n : Nat) : List Item → Nat → List Cps
-  | [], _ => []
-  | it :: rest, i => itemOut n i it ++ outPieces n rest (i + 1)
-
-/-- `do_css_CSSStyleDeclaration(style)` -/
-def cssText (seq : List Item) : Cps :=
-  let out := outPieces seq.length seq 0
-  let out := if out.getLast? == some [10] then out.dropLast else out
-  out.flatten
+/-! The serialisation of a property and of the block (`cssText`) is in `Model/DeclText.lean`, under every serializer
+preference. -/
 
 /-! ## DOM names (`cssproperties.py:89-114`) -/
 
@@ -645,5 +611,14 @@ def vSerialized (s : Vars) : List (Cps × Cps) :=
 
 /-- what the API reports: `[(k, getVariableValue(k)) for k in keys()]` -/
 def vReported (s : Vars) : List (Cps × Cps) := (vKeys s).map (fun k => (k, vGet s k))
+
+/-- a literal spelling of a normalised name: every backslash doubled (`c10_gen.requote` of the harness) -/
+def requote : Cps → Cps
+  | [] => []
+  | c :: t => if c == 92 then 92 :: 92 :: requote t else c :: requote t
+
+/-- what the API reports when every listed key is looked up by a literal spelling of it:
+`[(k, getVariableValue(requote(k))) for k in keys()]` -/
+def vReportedQ (s : Vars) : List (Cps × Cps) := (vKeys s).map (fun k => (k, vGet s (requote k)))
 
 end CssVerif.Decl
